@@ -38,3 +38,32 @@ pub fn deque_wrapped<S: Src>(s: &mut S) {
         Err(_) => assert!(false, "C01: loading saved bytes must succeed"),
     }
 }
+
+use crate::family_gen::{E256, E257};
+/// C02: discriminant width = 1 byte up to 256 variants, 2 bytes from 257 (boundary definitions, concrete values).
+pub fn enum_width_boundary<S: Src>(_s: &mut S) {
+    let mut b: Vec<u8> = Vec::with_capacity(8);
+    assert!(Serializer::bare_serialize(&mut b, 0, &E256::V255).is_ok());
+    assert!(b.len() == 1 && b[0] == 255, "C02: 256 variants use a one-byte discriminant");
+    let mut c: Vec<u8> = Vec::with_capacity(8);
+    assert!(Serializer::bare_serialize(&mut c, 0, &E257::V256).is_ok());
+    assert!(c.len() == 2 && c[0] == 0 && c[1] == 1, "C02: 257 variants use a two-byte little-endian discriminant");
+    let mut d: Vec<u8> = Vec::with_capacity(8);
+    assert!(Serializer::bare_serialize(&mut d, 0, &E257::V3).is_ok());
+    assert!(d.len() == 2 && d[0] == 3 && d[1] == 0);
+}
+
+/// cost probe / C12 building block: the schema of a flat derived struct lists its fields in order with the
+/// primitive kinds of the Rust types
+pub fn schema_shape_splain<S: Src>(_s: &mut S) {
+    use savefile::{Schema, SchemaPrimitive};
+    let schema = savefile::get_schema::<crate::family_gen::SPlain>(0);
+    match schema {
+        Schema::Struct(st) => {
+            assert!(st.fields.len() == 2);
+            assert!(matches!(*st.fields[0].value, Schema::Primitive(SchemaPrimitive::schema_u8)));
+            assert!(matches!(*st.fields[1].value, Schema::Primitive(SchemaPrimitive::schema_u32)));
+        }
+        _ => assert!(false),
+    }
+}
